@@ -60,7 +60,13 @@ def check_results(ctx, results, part_b=True):
             continue
         g = cfg.DGram(r.secs)
         v = r.verdict
-        conflict_free = r.conflicts is None and v.get("single", False)
+        # "construction reports no conflicts": nothing reported AND nothing settled silently.  A
+        # multi-candidate cell may legitimately go unreported only when precedence settled it, so a
+        # grammar WITHOUT any precedence declaration that reports no conflict must behave as
+        # conflict-free whatever the cells look like (a silently resolved reduce/reduce conflict
+        # then shows up as a rejected sentence).
+        no_prec = not g.tprec and not g.pprec
+        conflict_free = r.conflicts is None and (v.get("single", False) or no_prec)
         ctx.count("conflict_free" if conflict_free else ("resolved_by_prec" if r.conflicts is None else "conflicts_reported"))
         ctx.count("states_%s" % ("<4" if r.nstates < 4 else "4-15" if r.nstates < 16 else "16+"))
         n_acc = n_rej = 0
@@ -108,7 +114,12 @@ def check_results(ctx, results, part_b=True):
                            "input": [g.tnames.get(t, "?") for t in toks], "impl": io,
                            "conflicts": r.conflicts, "validators": v, "detail": r.vdetail})
         # --- construction tie: validators over the implementation's dump ---
-        need = ["wf", "S"] + (["C"] if (part_b and conflict_free) else [])
+        need = ["wf", "S"] + (["C"] if (part_b and conflict_free and v.get("single", False)) else [])
+        if part_b and r.conflicts is None and no_prec and not v.get("single", False) and not bad_inputs:
+            ctx.violation({"what": "no conflict is reported and no precedence is declared, yet a table cell has more than one candidate "
+                                   "(a conflict was settled silently); no failing input among %d generated" % len(r.inputs),
+                           "grammar": r.src, "validators": v, "detail": r.vdetail}, no_input=True)
+            ctx.oblige(False)
         failed = [k for k in need if not v.get(k, False)]
         if failed and not bad_inputs:
             ctx.violation({"what": "validator(s) %s reject the implementation's automaton; no failing input among %d generated"
@@ -130,6 +141,10 @@ def run(ctx):
     cases = gen_cases(ctx, ctx.n(300, 4000), ctx.n(30, 120))
     results = lr.run_cases(cases)
     check_results(ctx, results)
+    # tie of the PROVED closure/goto mirrors (LR/CloseProofs.v) to the code: mirror(core s) =
+    # closed s and goto(closed s, X) within core(target) for every state/edge of every grammar
+    from checks import c01_close
+    c01_close.run_part(ctx, results)
     ctx.coverage["rule"] = ("grammar families: random, reduced random, nullable-heavy, expression grammars with/without precedence, "
                             "LR(1)-not-LALR templates, classic corpus; inputs = sentences by random derivation, 1-3 token edits of them, "
                             "random strings, the empty input; non-trivial = automaton with >= 4 states and both an accepted and a rejected "
